@@ -47,6 +47,7 @@ usage: python -m harness.storecrash_h <jobs.json> <out.ndjson>
 
 import collections.abc
 import dbm
+import errno
 import gc
 import hashlib
 import inspect
@@ -340,6 +341,10 @@ def _unlink(*a, **k):
 
 
 def _move(*a, **k):
+    if H.active and H.plan == 'movefail':
+        # the rename into the store fails without killing the process (disk full, permission denied)
+        H.plan = 'none'
+        raise OSError(errno.ENOSPC, 'No space left on device', a[1] if len(a) > 1 else None)
     r = shutil.move(*a, **k)
     _moved()
     return r
@@ -540,7 +545,17 @@ def child_segment(ops, logfn, xdev=False):
             H.uk, H.uc, H.uname, H.uex, H.cur, H.ndigest = op['k'], op['c'], '-', False, None, 0
             bot = dawgie.Task('tk', 0, run, tn)
             ds = model.Interface(Alg(an, SV(Val(op['c']))), bot, tn)
-            ds._update()  # pylint: disable=protected-access
+            failing = op['site'] == 'movefail'
+            try:
+                ds._update()  # pylint: disable=protected-access
+            except OSError:
+                if not failing:
+                    raise
+                # the update ended with an error; the database process lives on
+                H.pc, H.uk, H.uc, H.uname, H.uex, H.cur = 'idle', '-', '-', '-', False, None
+                H.plan, H.reach = 'none', True
+                step('MoveFails', site='movefail')
+                continue
             flags = bot.new_values()
             assert len(flags) == 1, flags
             H.pc, H.uk, H.uc, H.uname, H.uex, H.cur = 'idle', '-', '-', '-', False, None
